@@ -932,6 +932,14 @@ func (sc *specCtx) call(n *SCall) SV {
 		// disjointSlices(s, t): the two slices do not share a backing array (or one has no storage)
 		a, b := sc.mat(arg(0)), sc.mat(arg(1))
 		return SV{T: fmt.Sprintf("(or (not (= (sl_base %s) (sl_base %s))) (= (sl_cap %s) 0) (= (sl_cap %s) 0))", a, b, a, b), Ty: boolT}
+	case "built":
+		// built(sb): the text accumulated so far in the strings.Builder variable sb
+		if id, ok := n.Args[0].(*SIdent); ok {
+			if a := sc.builderAddr(id.Name); a != "" {
+				return SV{T: fmt.Sprintf("(select %s %s)", sc.e.heapGet(sc.cur(), "M$builder", "Str"), a), Ty: types.Typ[types.String]}
+			}
+		}
+		return sc.fail("built(x): x must be a local strings.Builder variable")
 	case "sameBacking":
 		// sameBacking(s, t): slices s and t share base, offset and capacity (t is s re-sliced in length only)
 		a, b := sc.mat(arg(0)), sc.mat(arg(1))
@@ -1243,4 +1251,29 @@ func fillRecursive(t, marker, key string, heaps []string) string {
 		repl += ")"
 		t = t[:i] + repl + t[j+1:]
 	}
+}
+
+// builderAddr: the heap address of the local variable name (a strings.Builder whose address was taken).
+func (sc *specCtx) builderAddr(name string) string {
+	fc := sc.fc
+	if fc == nil {
+		return ""
+	}
+	var best *ssa.Alloc
+	bn := -1
+	for _, a := range fc.namedLoc[name] {
+		if n, ok := sc.st.seen[a]; ok && n > bn {
+			best, bn = a, n
+		}
+	}
+	if best == nil {
+		return ""
+	}
+	if m, ok := sc.st.mat[best]; ok {
+		return m
+	}
+	if v, ok := fc.vals[best]; ok && v.K == vTerm {
+		return v.T
+	}
+	return ""
 }
